@@ -343,7 +343,7 @@ static ASMJIT_FAVOR_SIZE Error validate(InstDB::Mode mode, const BaseInst& inst,
           // only usable for string instructions and other instructions where memory operand is implicit and
           // has 'seg:[reg]' form.
           if (base_id < Operand::kVirtIdMin) {
-            if (ASMJIT_UNLIKELY(base_id >= 32)) {
+            if (ASMJIT_UNLIKELY(base_id >= 32 || !Support::bit_test(vd->allowed_reg_mask[size_t(base_type)], base_id))) {
               return make_error(Error::kInvalidPhysId);
             }
 
@@ -423,7 +423,7 @@ static ASMJIT_FAVOR_SIZE Error validate(InstDB::Mode mode, const BaseInst& inst,
 
           uint32_t index_id = m.index_id();
           if (index_id < Operand::kVirtIdMin) {
-            if (ASMJIT_UNLIKELY(index_id >= 32)) {
+            if (ASMJIT_UNLIKELY(index_id >= 32 || !Support::bit_test(vd->allowed_reg_mask[size_t(index_type)], index_id))) {
               return make_error(Error::kInvalidPhysId);
             }
 
